@@ -29,6 +29,7 @@ META["explanation"] += ' R11.8 inside a loop that inserts into the sorted buffer
 META["explanation"] += " R11.9 every positional access to the sorted buffer (get / remove / set / insert / ..) takes a position that is not a diff's own index payload (a source-order index) unless it went through a search."
 META["explanation"] += ' R11.10 a searched position that is then advanced over a run of items (take_while(pred).count()) walks only over items not greater than the new value (polarity of Ordering::is_* against the argument order of the comparison). Shared: R10.12.'
 META["explanation"] += ' R11.4c looks through order-preserving iterator adapters and plain copies of the incoming vector (sorted first, numbered afterwards is a violation). R11.12 a working collection handed to the translator is empty between diffs: no arm drains it without clearing first while another arm leaves items in it.'
+META["explanation"] += ' R11.2 also compares the value operand of the buffer mutation with the value of the emitted diff (clones of one source).'
 
 STRUCT = {"append", "clear", "push_front", "push_back", "pop_front", "pop_back", "insert", "set", "remove", "truncate", "retain", "split_off", "slice", "extend"}
 TRANSLATOR = "vector::sort::handle_diff_and_update_buffered_vector"
@@ -243,6 +244,35 @@ def mirror(ctx, f, b, sw, target, v, buf):
                                     same = (oroot is not None and oroot == proot) or fmt(pi, 8) == fmt(oi, 8)
                                     if not same:
                                         problems.append(("operand", blk, arv["variant"], (m, oblk, fmt(oi, 3), fmt(pi, 3))))
+                        # value operand agreement: the item stored in the buffer and the item the consumer is handed are the
+                        # same value (clones of one source) - not e.g. the entry just removed from the buffer
+                        if m in ("insert", "set", "push_back", "push_front") and "args" in ot and len(ot["args"]) >= 2:
+                            def unclone(e_):
+                                x_ = strip(e_)
+                                for _ in range(6):
+                                    if x_[0] == "call" and ecall_matches(x_, r"Clone>?::clone$|::clone$|ToOwned>?::to_owned$") and x_[3]:
+                                        x_ = strip(x_[3][0])
+                                    else:
+                                        break
+                                return x_
+                            se = unclone(b.expr_of_op(ot["args"][-1]))
+                            if se[0] == "agg" and se[1] == "tuple" and len(se[5]) == 2:
+                                stored_v = unclone(se[5][1])
+                                for aloc, arv in cands:
+                                    if "value" in arv["fields"]:
+                                        ev_ = unclone(b.expr_of_op(arv["ops"][arv["fields"].index("value")]))
+                                        if fmt(ev_, 8) != fmt(stored_v, 8):
+                                            # a removed / looked-up buffer entry on one side and the diff's payload on the other?
+                                            from_buf = lambda e_: contains(e_, lambda y: y[0] == "call" and ecall_matches(y, r"GenericVector::<.*>::(remove|get|set|pop_front|pop_back|index)$|Index>?::index$"))
+                                            if from_buf(stored_v) != from_buf(ev_):
+                                                problems.append(("value", blk, arv["variant"], (m, oblk, fmt(stored_v, 3), fmt(ev_, 3))))
+                            elif se[0] == "call" and ecall_matches(se, r"GenericVector::<.*>::(remove|pop_front|pop_back)$"):
+                                # the whole stored entry is one that was just taken out of the buffer
+                                for aloc, arv in cands:
+                                    if "value" in arv["fields"]:
+                                        ev_ = unclone(b.expr_of_op(arv["ops"][arv["fields"].index("value")]))
+                                        if not contains(ev_, lambda y: y[0] == "call" and y[4] == se[4]):
+                                            problems.append(("value", blk, arv["variant"], (m, oblk, fmt(se, 3), fmt(ev_, 3))))
                     q = rest
         return [(q, seen_aggs)]
     ins, outs = forward_states(b, ((), frozenset()), transfer, start=target)
@@ -267,6 +297,10 @@ def mirror(ctx, f, b, sw, target, v, buf):
         elif kind == "unmirrored-push":
             ctx.violated("R11.2", f, "arm=%s,unmirrored-push=%s" % (v, "/".join(x)), b.line_at((blk, 10 ** 6)),
                          "sort translator, arm %s: `%s` is emitted although no matching mutation of the sorted buffer precedes it (order of emissions differs from the order of buffer mutations)" % (v, "/".join(x)))
+        elif kind == "value":
+            m, oblk, sv, evv = extra
+            ctx.violated("R11.2", f, "arm=%s,operand=%s.value" % (v, x), b.line_at((blk, 10 ** 6)),
+                         "sort translator, arm %s: the sorted buffer gets `%s` through buffer.%s(..) but the emitted %s carries `%s`: the adapter's buffer and the consumer's view hold different items at that position, and later comparisons (insertions, sets) are made against the stale one" % (v, sv, m, x, evv))
         else:
             m, oblk, oi, pi = extra
             ctx.violated("R11.2", f, "arm=%s,operand=%s.index" % (v, x), b.line_at((blk, 10 ** 6)),
